@@ -73,7 +73,25 @@ class Runner:
         flat, conflicts = G.flatten(sol)
         tag = '+'.join(O.ov_labels(spec, ovs)) or 'no-override'
         hist = '>'.join(t[0] for t in self.trace[-2:]) or 'start'
+        # unpopulated cells of a multi-cell override: only the readers of that very rectangle are asserted (their own
+        # placeholder node keeps BLANK on the unchanged tree), so a two-values conflict there is not reported
+        pop = W.populated(spec)
+        soft = set()
+        for ov in ovs:
+            if ov[0] != 'cell':
+                b_, s_, r1_, c1_, r2_, c2_ = O.target_rect(spec, ov)
+                soft |= {G.node_id(spec, (b_, s_, r_, c_)) for r_ in range(r1_, r2_ + 1) for c_ in range(c1_, c2_ + 1)
+                         if (b_, s_, r_, c_) not in pop}
+        arr_over = set()
+        for ov in ovs:
+            if ov[0] != 'cell':
+                b_, s_, r1_, c1_, r2_, c2_ = O.target_rect(spec, ov)
+                arr_over |= {G.node_id(spec, k_) for k_ in O.array_cells(spec) if k_[0] == b_ and k_[1] == s_ and r1_ <= k_[2] <= r2_ and c1_ <= k_[3] <= c2_}
         for c in conflicts:
+            if c[0] == 'two-values' and c[1] in soft:
+                continue
+            if c[0] == 'two-values' and c[1] in arr_over and 'Foreign(Ranges)' in c[2]:
+                continue  # the array cell's node wraps the supplied values in a nested Ranges; the cell values are asserted below
             self.fail('consistency|%s|%s|%s' % (sub, c[0], tag), '%s %s' % (c[1], c[2]))
         # (a) reference
         only = None
@@ -259,7 +277,7 @@ def _shape_like(spec, ov, a):
 @st.composite
 def histories(draw, tier, max_ops=8, objects=('A',), copies=('deepcopy',), name_rate=3, end_with_calc=True, fcopies=False,
               start_with_copy=False, edits=False):
-    spec = draw(G.specs(tier, max_books=2, wholecols=False, name_rate=name_rate))
+    spec = draw(G.specs(tier, max_books=2, wholecols=False, name_rate=name_rate, arr_rate=4))
     path = draw(st.sampled_from(['dict', 'dict', 'file']))
     forms = [c for c in spec['cells'] if 'f' in c and 'arr' not in c]
     pop = sorted(W.populated(spec))
@@ -278,7 +296,17 @@ def histories(draw, tier, max_ops=8, objects=('A',), copies=('deepcopy',), name_
         k = 'calc' if last else draw(st.sampled_from(kinds))
         obj = draw(st.sampled_from(live))
         if k == 'calc':
-            ovs = draw(O.overrides(spec, max_n=3))
+            prev = [o for o in ops if o[0] == 'calc' and o[2]]
+            if prev and draw(st.integers(0, 2)) == 0:
+                # the same targets as an earlier calculation, other values
+                ovs = []
+                for ov in prev[-1][2]:
+                    if ov[0] == 'cell':
+                        ovs.append(['cell', ov[1], draw(O.VALS)])
+                    else:
+                        ovs.append([ov[0], ov[1], [[draw(O.VALS_NOBLANK) for _ in row] for row in ov[2]]])
+            else:
+                ovs = draw(O.overrides(spec, max_n=3))
             outs = None
             if pop and draw(st.integers(0, 2)) == 0:
                 outs = [list(x) for x in draw(st.lists(st.sampled_from(pop), min_size=1, max_size=3, unique=True))]
